@@ -58,6 +58,8 @@ func runC01(env *Env) {
 		{Kind: "ctask", ID: 1, N: 0, Kids: []*Blk{{Kind: "task", ID: 2}, {Kind: "task", ID: 3}}},
 		{Kind: "incl", ID: 0, N: 1, Kids: []*Blk{{Kind: "task", ID: 1}, {Kind: "task", ID: 2}, {Kind: "task", ID: 3}}},
 		{Kind: "par", Kids: []*Blk{{Kind: "if", ID: 0, Kids: []*Blk{{Kind: "task", ID: 1}, {Kind: "skip"}}}, {Kind: "incl", ID: 1, N: 2, Kids: []*Blk{{Kind: "task", ID: 2}, {Kind: "task", ID: 3}, {Kind: "task", ID: 4}}}}},
+		// an exclusive split inside a loop, leaving by its default flow in every pass (run under v0 = false)
+		{Kind: "loop", ID: 3, N: 3, Kids: []*Blk{{Kind: "seq", Kids: []*Blk{{Kind: "task", ID: 1}, {Kind: "if", ID: 0, Kids: []*Blk{{Kind: "task", ID: 2}, {Kind: "task", ID: 3}}}}}}},
 		// an inclusive block entered again and again (its join must start afresh every time): run under v0 = v1 = true with several answer orders
 		{Kind: "loop", ID: 3, N: 3, Kids: []*Blk{{Kind: "seq", Kids: []*Blk{{Kind: "task", ID: 1}, {Kind: "incl", ID: 0, N: 1, Kids: []*Blk{{Kind: "task", ID: 2}, {Kind: "task", ID: 3}, {Kind: "skip"}}}, {Kind: "task", ID: 4}}}}},
 		// the known finding: a forking gateway nested in an inclusive block (kept last, run once each under the assignment that shows it)
